@@ -54,23 +54,27 @@ theorem agree_alloc {s : Store} (e : EntId) (hA : Agree sch s) (hR : Range s) : 
     split at hh
     · cases hh
     · rename_i hpn
-      have hp' : p < s.n := by omega
-      have hal' : s.alive p = true := by simp only [Store.alloc] at hal; simpa [hpn] using hal
+      have hp' : p < s.n := Nat.lt_of_le_of_ne (Nat.le_of_lt_succ hp) hpn
+      have hal' : s.alive p = true := by
+        have h2 : (if p = s.n then true else s.alive p) = true := hal
+        rw [if_neg hpn] at h2; exact h2
       have hq := hasB_lt hR hp' hh
-      rw [if_neg (by omega)]
+      rw [if_neg (Nat.ne_of_lt hq)]
       exact hA p b q hp' hal' hh
   · intro p b x hp hx
     rw [Store.alloc_n] at hp ⊢
-    simp only [Store.alloc] at hx
-    split at hx
-    · cases hx
-    · have := hR.1 p b x (by omega) hx; omega
+    have hx' : (if p = s.n then none else s.ref p b) = some x := hx
+    split at hx'
+    · cases hx'
+    · rename_i hpn
+      exact Nat.lt_succ_of_lt (hR.1 p b x (Nat.lt_of_le_of_ne (Nat.le_of_lt_succ hp) hpn) hx')
   · intro p b x hp hx
     rw [Store.alloc_n] at hp ⊢
-    simp only [Store.alloc] at hx
-    split at hx
-    · cases hx
-    · have := hR.2 p b x (by omega) hx; omega
+    have hx' : (if p = s.n then false else s.mem p b x) = true := hx
+    split at hx'
+    · cases hx'
+    · rename_i hpn
+      exact Nat.lt_succ_of_lt (hR.2 p b x (Nat.lt_of_le_of_ne (Nat.le_of_lt_succ hp) hpn) hx')
 
 theorem valsOk_mem {s : Store} {e : EntId} : ∀ {vals : List (Attr × Val)}, valsOk sch s e vals = none →
     ∀ a v, (a, v) ∈ vals → match v with
@@ -177,12 +181,11 @@ theorem create_ok {fuel : Nat} {e : EntId} {vals : List (Attr × Val)} {st st' :
         intro s1 s2 hnd hsub hA' hR' hn hfresh hi
         obtain ⟨s1', hstep, hrest⟩ := iter_cons_ok hi
         have hnd' := (List.nodup_cons.mp hnd)
-        have hid : st.store.n < s1.store.n := by omega
+        have hid : st.store.n < s1.store.n := by rw [hn]; exact Nat.lt_succ_self _
         -- one attribute
         have hone : Agree sch s1'.store ∧ Range s1'.store ∧ s1'.store.n = s1.store.n ∧
             (∀ p b q, hasB sch s1'.store p b q = true → hasB sch s1.store p b q = true ∨
               (p = st.store.n ∧ b = a ∧ q < st.store.n) ∨ (q = st.store.n ∧ b = sch.rev a ∧ p < st.store.n)) := by
-          simp only at hstep
           split at hstep
           · rename_i d rd hd hrd
             split at hstep
@@ -210,7 +213,7 @@ theorem create_ok {fuel : Nat} {e : EntId} {vals : List (Attr × Val)} {st st' :
                 rw [hv] at hstep
                 have hx := lookupRef_lt hvals a x hv
                 obtain ⟨g1, g2, g3, g4⟩ := updateReverse_ok (s0 := s1.store) hdel hstep hd hcoll' hrd rfl hcell.symm
-                  (by rw [hcell]; simp) hid (fun hc => absurd hcell hc) (fun y hy => by cases hy; omega) hA' hR'
+                  (by rw [hcell]; simp) hid (fun hc => absurd hcell hc) (fun y hy => by cases hy; rw [hn]; exact Nat.lt_succ_of_lt hx) hA' hR'
                 refine ⟨g1, g2, g3, ?_⟩
                 intro p b q hh
                 rcases g4 p b q hh with h' | ⟨h1, h2, h3⟩ | ⟨h1, h2, h3⟩
@@ -220,7 +223,7 @@ theorem create_ok {fuel : Nat} {e : EntId} {vals : List (Attr × Val)} {st st' :
             · rename_i hcoll
               have hcoll' : d.isColl = true := by simpa using hcoll
               have hit := lookupColl_lt hvals a
-              obtain ⟨g1, g2, g3, g4⟩ := setCollCore_ok hdel hstep hd hcoll' hid (fun y hy => by have := hit y hy; omega) hA' hR'
+              obtain ⟨g1, g2, g3, g4⟩ := setCollCore_ok hdel hstep hd hcoll' hid (fun y hy => by rw [hn]; exact Nat.lt_succ_of_lt (hit y hy)) hA' hR'
               refine ⟨g1, g2, g3, ?_⟩
               intro p b q hh
               rcases g4 p b q hh with h' | ⟨h1, h2, h3⟩ | ⟨h1, h2, h3⟩
@@ -237,7 +240,7 @@ theorem create_ok {fuel : Nat} {e : EntId} {vals : List (Attr × Val)} {st st' :
           rcases g4 _ _ _ hh with h' | ⟨_, h2, _⟩ | ⟨h1, _, h3⟩
           · rw [hfresh a' (by simp [ha']) y] at h'; cases h'
           · rw [h2] at ha'; exact absurd ha' hnd'.1
-          · omega
+          · exact absurd h3 (Nat.lt_irrefl _)
     refine key _ _ st' (attrsOf_nodup sch e) (fun a ha => ha) hA1 hR1 (by simp [Store.alloc]) ?_ h
     intro a _ y
     simp only [St.log_store, St.setStore_store]
